@@ -809,6 +809,10 @@ func c11(c *fw.Ctx) {
 	for i := 0; i < neci; i++ {
 		c.Run(fmt.Sprintf("eci/%d", i), func(r *fw.Rec) { c11ECICase(r) })
 	}
+	for i := 0; i < c.Pick(4, 40); i++ {
+		c.Run(fmt.Sprintf("single-high-byte/%d", i), func(r *fw.Rec) { c11SingleHighByte(r) })
+	}
+	c.Floor("single_high_byte_messages", 500)
 	c.Floor("eci_streams_decoded", int64(neci*20))
 	for si, s := range azref.AllSpecs() {
 		s := s
